@@ -80,6 +80,7 @@ def oracle(run: runner.Run, oc: Outcome) -> None:
     hspecs = common.handler_specs(run, opid)
     snaps = common.snapshots(run)
     steps = changes.extract_steps(run)
+    by_rid = {r.rid: r for r in run.net.requests}
     kinds_seen: set[str] = set()
     for (op, uid), lst in steps.items():
         first_by_actor: dict[str, Any] = {}
@@ -147,7 +148,14 @@ def oracle(run: runner.Run, oc: Outcome) -> None:
                 # behind although the process considers the cycle completed)
                 open_recs = [k for k, r in st.records(state_after).items()
                              if not common.finished(r) and k not in final_now]
-                if not adjusted and (ran or not unconfirmed) and not open_recs:
+                # (a progress write that was refused -- e.g. 404: the object vanished under the handler -- leaves
+                # the process knowing that it is not done, while nothing of it is visible in the object)
+                name_ = ((view or {}).get('metadata') or {}).get('name')
+                refused = any(e[2] == 'rsp' and isinstance(e[4], int) and e[4] >= 400 and s.seq0 <= e[0] <= (s.seq1 or e[0])
+                              and (rq := by_rid.get(e[3])) is not None and rq.method == 'PATCH'
+                              and rq.session.actor == s.actor and rq.attrs.get('name') == name_
+                              for e in run.sim.trace)
+                if not adjusted and (ran or not unconfirmed) and not open_recs and not refused:
                     pending = [c for c in ran if not changes.final_outcome(c, hspecs.get(c.hid, {}))]
                     if not pending:
                         handled_once[s.actor] = True
